@@ -6,7 +6,9 @@ patch=$(readlink -f "$1"); shift
 cd /repo || exit 2
 git diff --quiet || { echo "/repo is dirty"; exit 2; }
 git apply "$patch" || { echo "patch does not apply"; exit 2; }
-trap 'cd /repo && git checkout -- . && git clean -fdq -e export_verif.go >/dev/null 2>&1' EXIT
+# evidence written while /repo is changed is not evidence about /repo: put the files back afterwards
+ev=$(mktemp -d /dev/shm/evidence-keep-XXXX); cp -a /verif/evidence/. $ev/
+trap 'cd /repo && git checkout -- . && git clean -fdq -e export_verif.go >/dev/null 2>&1; cp -a $ev/. /verif/evidence/; rm -rf $ev' EXIT
 ( GOTOOLCHAIN=local GOFLAGS=-mod=mod GOPROXY=off go1.26.8 build ./... ) || { echo "does not build"; exit 2; }
 cd /verif
 for p in "$@"; do
